@@ -123,18 +123,20 @@ P("C14", [f"{SEL}:_IndexingMixin._process_slice", f"{SEL}:RangeSelector1D.__geti
   "are covered by the bounded tier.", level="other",
   unverified=["_tableops.get enum/bytes decoding", "api.annotate (pandas joins)", "the _slice closures of Cooler.chroms()/bins()/pixels()"])
 
-P("C15", [f"{UT}:parse_cooler_uri", "cooler.fileops:_copy", f"{CR}:create"], "bounded/C15.py",
+P("C15", [f"{UT}:parse_cooler_uri", "cooler.fileops:_copy", "cooler.fileops:_is_cooler", "cooler.fileops:is_cooler", f"{CR}:create"], "bounded/C15.py",
   "Proof core: URI splitting for all strings, and the branch logic of fileops._copy (behind cp/mv/ln) over a ghost "
   "operation log of two h5py handles, for all flag combinations, group paths and same/different files: the "
   "destination file is opened for truncation iff it is absent or overwrite was asked, the source is never opened "
   "for truncation, every write creates exactly the destination group (or, for a root destination across files, "
   "its four children and attributes), the only thing ever deleted is the source group of a move, a refused "
   "combination writes nothing.  h5py's own semantics (hard link, deep copy, soft/external link) are assumed. "
+  "The recognition test: _is_cooler is true iff the group's format attribute is the cooler magic string; is_cooler(uri) is true exactly when the file is HDF5, "
+  "the group path resolves and the group is a collection, and is False - never an error - for a non-HDF5 file, a missing path or a dangling link; read-only. "
   "create() (coordinator contract over the same kind of log): the first open uses the requested mode - write by default, "
   "append when asked - and every later open is r+; with a nested target exactly the target group is deleted, iff it "
   "existed, and created afresh; with a root target exactly the existing ones of the four tables are deleted; every "
   "write lies inside the target group. Sequences of operations on real files are explored by the bounded tier.", level="other",
-  unverified=["cp/mv/ln (one-line wrappers of _copy)", "is_cooler/list_coolers",
+  unverified=["cp/mv/ln (one-line wrappers of _copy)", "list_coolers / visititems (tree walk)",
               "h5py link/copy semantics (assumed by the operation-log model)"])
 
 P("C16", [f"{ING}:_sanitize_pixels", f"{ING}:_validate_pixels", f"{RQ}:FillLowerRangeQuery2D.__init__", f"{RQ}:DirectRangeQuery2D.__init__"], "bounded/C16.py", "Proof core: the pieces of the dump/load paths that are under contract - the query engines dump iterates (exactly-once lemma, shared with C03) and the pre-binned-record sanitizer and validator cooler load runs every chunk through (shared with C05/C13). The option semantics of dump, the loaders' column mapping and the zoomify spec expansion are covered by the bounded tier (all 128 dump option subsets, all column permutations).",
